@@ -33,8 +33,8 @@ def pred_sites(prog, mods=('mulgrids', 't2grids', 't2incons', 't2data')):
 
 
 def rule_pred(run, floor=10, only=None):
-    run.rule('PRED', 'every comparison of a column surface with a layer bottom is the block-existence relation '
-             '`surface > bottom` or its exact negation', floor=floor)
+    run.rule('PRED', 'every comparison of a column surface with a layer bottom, in the functions this property is about, is the '
+             'block-existence relation `surface > bottom` (the one block_name_list uses) or its exact negation', floor=floor)
     sites = pred_sites(run.prog)
     seen = {}
     for fi, n, l, op, r, verdict in sites:
